@@ -17,9 +17,9 @@ RULE = ('detector case = (recorded history, tolerance, window, mask in set/dict/
 ASSUMPTIONS = ['comparisons within 1e-12 of the tolerance are not judged', 'measure monitors use factor measures of equal size (the monitor\'s documented layout)',
                'collapse_cost is only put through the mask idempotence check (its interval arithmetic is not specified by the property)']
 CLASSES = {
-    'detect_params': {'quick': 1500, 'thorough': 25000},
-    'detect_measures': {'quick': 800, 'thorough': 12000},
-    'solver': {'quick': 60, 'thorough': 700},
+    'detect_params': {'quick': 3000, 'thorough': 100000},
+    'detect_measures': {'quick': 1600, 'thorough': 48000},
+    'solver': {'quick': 120, 'thorough': 2800},
 }
 MIN_EVENTS = {'quick': {'assert:detect': 4000, 'assert:solver': 200, 'collapses_applied': 40}}
 CASE_TIMEOUT = 300
